@@ -409,7 +409,9 @@ def run_edges(rep, prop, wd, proj, ref, groups, rng, kinds_per_edge=1, via_cli_f
                 run = dict(via="cli", base="p", args=args + names)
             else:
                 run = dict(base="p", inputs=names, recursive=rec, mode=o["act"], trailing=o["tr"], threads=2)
-            cases.append(dict(id=f"{tag}{gi}", files=files, sentinel=True, steps=[dict(snapshot=True), dict(run=run)]))
+            # generated files are younger than the sources in two cases out of three (as after a real build), same age otherwise
+            newer = ["p/" + proj.gen_path(g) for g in proj.gens()] if (gi + k) % 3 else []
+            cases.append(dict(id=f"{tag}{gi}", files=files, sentinel=True, newer=newer, steps=[dict(snapshot=True), dict(run=run)]))
             meta.append((grp, kinds, how))
     res = vh_cases(cases, wd, f"{tag}-{proj.name}-{proj.layout}", templates={})
     executed = 0
@@ -494,8 +496,11 @@ def check(prop):
     extra = {}
     if prop == "C08":
         extra = crash_points(rep, wd, rng, quick)
+    if prop == "C06":
+        extra = verify_size_classes(rep, wd, rng, quick)
     if prop == "C07":
         extra = clean_histories(rep, wd, rng, quick)
+        extra.update(pp_clean(rep, wd, rng, quick))
     rep.coverage.update(dict(
         states=states, transitions=trans, traces_validated_against_impl=executed,
         edges_executed=executed, distinct_edge_classes=len(classes), scenarios=[f"{a}/{b}{'/big' if c else ''}" for a, b, c in plan],
@@ -604,3 +609,101 @@ def clean_histories(rep, wd, rng, quick):
                         pass
             ran_before = tree.get("ran.log", {}).get("text", "").count("ran")
     return dict(clean_histories=len(cases))
+
+
+def pp_clean(rep, wd, rng, quick):
+    """C07 on the line-machine catalogue: for every enumerated source (all directive kinds, erroneous directives, temp
+    directives with and without body, prefix-less and multi-line forms) build - whatever its verdict - followed by clean
+    leaves exactly the tree that was there before; PpCore.tla's clean pass (CleanCase) predicts which temp targets go"""
+    import pp_engine
+    firsts = list(range(0, pp_engine.NL + 1))
+    maxlen = 2 if quick else 3
+    states, cases = pp_engine.spec_run(rep, "C07", wd, maxlen, firsts)
+    vcases, meta = [], []
+    for ci, c in enumerate(cases):
+        for hist in (["build", "clean"], ["clean"], ["build", "clean", "clean"]):
+            if hist != ["build", "clean"] and rng.random() > 0.2:
+                continue
+            le = rng.choice(["\n", "\r\n"])
+            files = [dict(path="b/s.txt.txtpp", text=pp_engine.render_source(c["src"], le))]
+            steps = [dict(run=dict(base="b", inputs=["s.txt.txtpp", "d1.txtpp"], mode=h, threads=2)) for h in hist]
+            vcases.append(dict(id=str(ci), template="ppenv", report="changed", files=files, steps=steps))
+            meta.append((c, hist))
+    res = pp_engine.vh_cases(vcases, wd, "ppclean")
+    n = 0
+    for (c, hist), r in zip(meta, res):
+        n += 1
+        last = r["steps"][-1]
+        ctx = f"[source lines {c['src']} history {hist}]"
+        if last["verdict"] != "ok":
+            rep.violation(f"ppclean:verdict:{json.dumps(c['src'])}", f"clean reports {last['verdict']} {last.get('detail', '')[:200]} {ctx}", dict(src=c["src"], hist=hist))
+            continue
+        runs = last.get("runs", [])
+        if runs:
+            rep.violation(f"ppclean:ran:{json.dumps(c['src'])}", f"clean executed {runs} {ctx}", dict(src=c["src"], hist=hist))
+        left = {p: v for p, v in last["tree"].items() if "dir" not in v}
+        if left:
+            rep.violation(f"ppclean:left:{sorted(left)}", f"after clean the tree differs from the tree before the build: {left} {ctx}", dict(src=c["src"], hist=hist, left=left))
+    return dict(pp_clean_cases=n, pp_clean_sources=len(cases))
+
+
+def verify_size_classes(rep, wd, rng, quick):
+    """C06 beyond the small outputs of the scenarios: outputs of sizes around buffer boundaries (0, 1, 8191, 8192, 8193, 16384, ...),
+    produced by plain text, by one big include and by command output, each tampered at every offset class"""
+    sizes = [0, 1, 2, 100, 4095, 4096, 8191, 8192, 8193, 9999, 16383, 16384, 16385, 24576, 65536, 70001]
+    if quick:
+        sizes = [0, 1, 100, 8191, 8192, 8193, 16384, 24576, 70001]
+
+    def text_of(n):
+        out, i = "", 0
+        while len(out) < n:
+            out += f"line {i} of the generated text\n"
+            i += 1
+        out = out[:n]
+        if n > 0:
+            out = out[:-1] + "\n"
+        return out
+    cases, meta = [], []
+    for n in sizes:
+        body = text_of(n)
+        for shape in ("text", "include", "run"):
+            if shape == "text":
+                files = [dict(path="p/o.txt.txtpp", text=body)]
+            elif shape == "include":
+                files = [dict(path="p/o.txt.txtpp", text="TXTPP#include big.dat\n"), dict(path="p/big.dat", text=body)]
+            else:
+                files = [dict(path="p/o.txt.txtpp", text="-TXTPP#run cat big.dat\n"), dict(path="p/big.dat", text=body)]
+            for tr in (True, False):
+                for tam in ("none", "append1", "append-many", "drop-last", "flip-first", "flip-mid", "flip-last", "insert-mid", "delete", "other-option"):
+                    steps = [dict(run=dict(base="p", inputs=["o.txt"], mode="build", trailing=tr, threads=1)),
+                             dict(tamper=dict(path="p/o.txt", how=tam)),
+                             dict(snapshot=True),
+                             dict(run=dict(base="p", inputs=["o.txt"], mode="verify", trailing=(tr if tam != "other-option" else not tr), threads=1))]
+                    cases.append(dict(id=f"v{len(cases)}", files=files, sentinel=True, steps=steps))
+                    meta.append((n, shape, tr, tam))
+    res = pp_vh_cases_tamper(cases, wd)
+    n_checked = 0
+    for (n, shape, tr, tam), r in zip(meta, res):
+        built, pre, ver = r["steps"][0], r["steps"][2]["tree"], r["steps"][3]
+        if built["verdict"] != "ok":
+            rep.note(f"(belongs to C01) build of a {n}-byte {shape} source failed")
+            continue
+        changed = r["steps"][1].get("changed", False)
+        if tam == "other-option":
+            # text: the option removes the final newline of a non-empty output; directive at end of file: it adds one
+            changed = (n > 0) if shape == "text" else True
+        want = "err" if changed else "ok"
+        n_checked += 1
+        ctx = f"[output of {n} bytes ({shape}), trailing={tr}, tampering {tam}]"
+        if ver["verdict"] != want:
+            rep.violation(f"verifysize:{tam}:{n}:{shape}", f"verify reports {ver['verdict']}, expected {want}: the output " + ("differs from" if changed else "equals") + f" what a build would write {ctx}",
+                          dict(size=n, shape=shape, trailing=tr, tamper=tam))
+        a, b = pre.get("p/o.txt"), ver["tree"].get("p/o.txt")
+        if a != b:
+            rep.violation(f"verifysize:touched:{n}:{shape}", f"verify touched the output {ctx}", dict(size=n, shape=shape, before=str(a)[:200], after=str(b)[:200]))
+    return dict(verify_size_class_cases=n_checked)
+
+
+def pp_vh_cases_tamper(cases, wd):
+    from pp_engine import vh_cases
+    return vh_cases(cases, wd, "vsize", templates={}, procs=10)
